@@ -404,6 +404,10 @@ func decimalValueFromString(numStr string, fracDigRequired uint8) (n Number, err
 	dx := strings.Index(s, ".")
 	var fracDig uint8
 	if dx >= 0 {
+		isDigit := func(i int) bool { return i >= 0 && i < len(s) && s[i] >= '0' && s[i] <= '9' }
+		if !isDigit(dx-1) || !isDigit(dx+1) {
+			return n, fmt.Errorf("%s is not a valid decimal number: missing digits around the decimal point", numStr)
+		}
 		if len(s)-1-dx > int(MaxFractionDigits) {
 			return n, fmt.Errorf("%s has too much precision, expect <= %d fractional digits", s, fracDigRequired)
 		}
